@@ -11,10 +11,12 @@ Open Scope N_scope.
                                                       variant "module v-1 falls silent instead of panicking" is run as well
    mod    := catch stages bud  progs progs progs  lp(end)      catch odd = panics are caught; stages' = 1 + stages mod 3;
                                                       bit 1+id of catch: the handle of task id is join()ed (else try_join);
+                                                      bit 8 of catch: Module::reset calls schedule_in / send (bit 9 says which; the
+                                                      library panics either way);
                                                       bits 4..7 of catch and field a of ops 8 / 9: the other four Stereotyp flags -- never
                                                       read here (C13_only_catch_flag_matters), as des never reads them
    progs  := n lp(prog){n}                            start programs, message programs, tasks
-   prog   := (op a b c)*                              op mod 16: 0 log c | 1 send(far = a odd, delay b, payload c)
+   prog   := (op a b c)*                              op mod 20: 0 log c | 1 send(far = a odd, delay b, payload c)
                                                       | 2 schedule(delay b, payload c) | 3 sleep b | 4 shutdown
                                                       | 5 restart_in b | 6 panic | 7 quiet | 8 catch panics | 9 do not
                                                       | 10 schedule_at(now - 1 - b) | 11 send_at(gate a, now - 1 - b)
@@ -23,6 +25,8 @@ Open Scope N_scope.
                                                         index throughout: here a log of that number)
                                                       | 14 panic inside a Prop::update / Prop::map closure | 15 re-entrant property
                                                         access (the library's lock panics): panics that begin while a lock is held
+                                                      | 16..19 zero-delay send onto the gate whose channel carries a ChannelProbe that
+                                                        panics: a panic in user code run under the event buffer's lock
                                                       10..12: calls of the
                                                         public API with a time stamp in the past; the library panics inside the call,
                                                         which makes each of them a panic at that point of the callback / task
@@ -33,7 +37,7 @@ Definition nxt (l : list N) : N * list N := match l with [] => (0, []) | x :: r 
 Fixpoint quads (k : N) (l : list N) : prog :=
   match l with
   | o :: a :: b :: c :: r =>
-    (let o := o mod 16 in
+    (let o := o mod 20 in
      if o =? 0 then ALog c else if o =? 1 then ASend (N.odd a) b c else if o =? 2 then ASched b c
      else if o =? 3 then ASleep b else if o =? 4 then AShutdown else if o =? 5 then ARestartIn b
      else if o =? 6 then APanic else if o =? 7 then AQuiet else if o <? 10 then ASetCatch (o =? 8)
@@ -58,7 +62,8 @@ Definition dec_mod (k : N) (l : list N) : modcfg * list N :=
   let '(ps, r) := blobs r in let '(pm, r) := blobs r in let '(pt, r) := blobs r in
   let '(pe, r) := take_lp r in
   ({| c_catch := N.odd ca; c_stages := 1 + st mod 3; c_bud := b; c_start := map (quads k) ps;
-      c_msg := map (quads k) pm; c_tasks := map (quads k) pt; c_end := quads k pe; c_join := (ca / 2) mod 8 |}, r).
+      c_msg := map (quads k) pm; c_tasks := map (quads k) pt; c_end := quads k pe; c_join := (ca / 2) mod 8;
+      c_rsend := N.testbit ca 8 |}, r).
 
 Fixpoint dec_mods (k : N) (n : nat) (l : list N) : list modcfg * list N :=
   match n with
@@ -101,6 +106,7 @@ Definition enc_item (i : item) : list N :=
   | ISetCatch m who b => [19; m; who; b2n b; 0]
   | ITaskEnd m id i how => [20; m; id; i; how]
   | ISpawn m id i must => [21; m; id; i; b2n must]
+  | IResetPanic m => [22; m; 0; 0; 0]
   end.
 
 Definition enc_err (e : N * N) : list N := [15; (if fst e =? 0 then 0 else 1); snd e; fst e; 0].
